@@ -11,7 +11,7 @@ PROP = 'C05'
 TRACE = ('Trace_Units', 'Trace_Units.cfg')
 DEC = {'en-us': '.', 'es-mx': '.', 'ja-jp': '.', 'zh-cn': '.'}
 NUMERALS = [('12', ''), ('3', '5'), ('1', ''), ('250', '')]
-AMOUNTS = [(1, 1), (2, 50), (10, 5), (100, 99), (7, 3)]
+AMOUNTS = [(1, 1), (2, 50), (10, 5), (100, 99), (7, 3), (1, 14), (12, 59)]   # the last two are not exact in binary floating point
 CONNECT = {'en-us': 'and', 'es-es': 'y', 'es-mx': 'y', 'fr-fr': 'et', 'pt-br': 'e', 'it-it': 'e', 'de-de': 'und', 'nl-nl': 'en'}
 
 
@@ -122,15 +122,18 @@ def run(tier):
             V.violation(key, {'case': cs, 'observed': obs[eid], 'clause': clause})
         if res['nbad'] > len(res['bad']):
             V.note('%d failing events in total; first %d reported' % (res['nbad'], len(res['bad'])))
+        from .. import mechbind
+        mech_info = mechbind.compound_merge(work, V)
         rc = V.finish()
         common.write_evidence(PROP, tier, 'model_checking', {
-            'states': gen['distinct'] + res['states'], 'transitions': gen['generated'] + res['transitions'],
+            'states': gen['distinct'] + res['states'] + sum(m['distinct_states'] for m in mech_info), 'transitions': gen['generated'] + res['transitions'] + sum(m['distinct_states'] for m in mech_info),
+            'mech_model_checks': mech_info,
             'traces_validated_against_impl': res['n'],
             'samples': [{'case': {k: v for k, v in c.items() if k != 'c'}, 'expect': c['c'], 'observed': o} for c, o in flow.sample_evenly(list(zip(cases, obs)), 5)],
             'evaluations': len(cases),
             'distinct_nontrivial': len({(c['culture'], c['api'], c['text']) for c, o in zip(cases, obs) if o.get('ents')}),
             'rule': 'table snapshot of the running configuration: %d (culture, type, unit, surface, side) entries (%d not flagged ambiguous) and %d main/fraction currency pairs; '
-                    'Gen_Units (TLC) combines the picked entry indices with 2 numerals and the picked pairs with 5 amounts; texts are built from the indices by the harness; '
+                    'Gen_Units (TLC) combines the picked entry indices with 2 numerals and the picked pairs with 7 amounts; texts are built from the indices by the harness; '
                     'every call is judged by TLC (Trace_Units: one entity, whole span, unit among the canonical units listing the spelling, value, ISO code, N + M/ratio); '
                     '%s' % (len(entries), len(usable), len(pairs), 'quick: one seeded surface per (culture, type, unit, side) and 250 seeded pairs' if tier == 'quick' else 'thorough: every entry and every pair'),
             'exhaustive': tier == 'thorough', 'entries_picked': len(pick_e), 'pairs_picked': len(pick_p), 'binding_selftest': 'passed',
